@@ -494,8 +494,10 @@ def groupselectmin(table, key, value, presorted=False, buffersize=None,
 
     # N.B., sorting by value destroys any existing order by key, so the key
     # sort can never be skipped here, whatever `presorted` says
-    return groupselectfirst(sort(table, value, reverse=False), key,
-                            presorted=False, buffersize=buffersize,
+    return groupselectfirst(sort(table, value, reverse=False,
+                                 buffersize=buffersize, tempdir=tempdir,
+                                 cache=cache),
+                            key, presorted=False, buffersize=buffersize,
                             tempdir=tempdir, cache=cache)
 
 
@@ -510,8 +512,10 @@ def groupselectmax(table, key, value, presorted=False, buffersize=None,
 
     # N.B., sorting by value destroys any existing order by key, so the key
     # sort can never be skipped here, whatever `presorted` says
-    return groupselectfirst(sort(table, value, reverse=True), key,
-                            presorted=False, buffersize=buffersize,
+    return groupselectfirst(sort(table, value, reverse=True,
+                                 buffersize=buffersize, tempdir=tempdir,
+                                 cache=cache),
+                            key, presorted=False, buffersize=buffersize,
                             tempdir=tempdir, cache=cache)
 
 
